@@ -4,6 +4,8 @@ import (
 	"bytes"
 	"encoding/hex"
 	"fmt"
+	"os"
+	"regexp"
 	"strconv"
 	"strings"
 
@@ -108,6 +110,19 @@ func (C02) Gen(r *core.Rng, tier string, emit func(string)) {
 	for i := 0; i < n; i++ {
 		emit("hser " + hdrFields(randHeader(r)))
 	}
+	// a consumer of the decoded header: what `pmtiles show` (the real binary) lists for an archive with this header
+	nShow := 12
+	if tier == "thorough" {
+		nShow = 150
+	}
+	for i := 0; i < nShow; i++ {
+		h := randHeader(r)
+		if i%3 == 0 {
+			// counts that differ from each other (entries sharing contents, runs)
+			h.AddressedTilesCount, h.TileEntriesCount, h.TileContentsCount = 1000+r.U64()%100000, 100+r.U64()%900, 1+r.U64()%99
+		}
+		emit("clishow " + hdrFields(h))
+	}
 	for i := 0; i < n/10; i++ {
 		emit("hseq " + hdrFields(randHeader(r)) + " | " + hdrFields(randHeader(r)))
 	}
@@ -139,7 +154,55 @@ func (C02) Gen(r *core.Rng, tier string, emit func(string)) {
 	}
 }
 
+var reShowLine = regexp.MustCompile(`(?m)^(pmtiles spec version|tile type|min zoom|max zoom|center zoom|addressed tiles count|tile entries count|tile contents count|clustered|internal compression|tile compression): (.*)$`)
+
+// runCLIShow writes a small archive carrying the given header's descriptive fields and counts and returns the
+// listing of `pmtiles show <file>` in a canonical one-line form
+func runCLIShow(hw pmtiles.HeaderV3) string {
+	ic := pmtiles.Compression(pmtiles.Gzip)
+	if hw.InternalCompression == pmtiles.NoCompression {
+		ic = pmtiles.NoCompression
+	}
+	es := []pmtiles.EntryV3{{TileID: 0, Offset: 0, Length: 3, RunLength: 1}}
+	ab, h := archiveFromParsed(ic, []byte("abc"), []parsedDir{{entries: es}}, baseHeader(), []byte(`{"name":"x"}`))
+	h.AddressedTilesCount, h.TileEntriesCount, h.TileContentsCount = hw.AddressedTilesCount, hw.TileEntriesCount, hw.TileContentsCount
+	h.Clustered, h.TileCompression, h.TileType = hw.Clustered, hw.TileCompression, hw.TileType
+	h.MinZoom, h.MaxZoom, h.CenterZoom = hw.MinZoom, hw.MaxZoom, hw.CenterZoom
+	h.MinLonE7, h.MinLatE7, h.MaxLonE7, h.MaxLatE7, h.CenterLonE7, h.CenterLatE7 = hw.MinLonE7, hw.MinLatE7, hw.MaxLonE7, hw.MaxLatE7, hw.CenterLonE7, hw.CenterLatE7
+	copy(ab, pmtiles.SerializeHeader(h))
+	path := scratchFile(".pmtiles")
+	os.WriteFile(path, ab, 0o644)
+	defer os.Remove(path)
+	out, err := cliRun("show", path)
+	if err == errNoCLI {
+		return "no-cli-binary"
+	}
+	if err != nil {
+		return "show-failed " + strings.ReplaceAll(trunc(err.Error(), 80), " ", "_")
+	}
+	got := map[string]string{}
+	for _, m := range reShowLine.FindAllStringSubmatch(string(out), -1) {
+		got[m[1]] = m[2]
+	}
+	var sb []string
+	for _, k := range []string{"pmtiles spec version", "tile type", "min zoom", "max zoom", "center zoom", "addressed tiles count", "tile entries count", "tile contents count", "clustered", "internal compression", "tile compression"} {
+		v, ok := got[k]
+		if !ok {
+			v = "<missing>"
+		}
+		sb = append(sb, strings.ReplaceAll(k, " ", "_")+"="+v)
+	}
+	return strings.Join(sb, " ")
+}
+
 func (C02) RunGo(line string) string {
+	if strings.HasPrefix(line, "clishow ") {
+		h, ok := parseHdrFields(strings.Fields(line)[1:])
+		if !ok {
+			return "bad-case"
+		}
+		return runCLIShow(h)
+	}
 	t := strings.Fields(line)
 	switch t[0] {
 	case "hser":
@@ -174,13 +237,18 @@ func (C02) RunGo(line string) string {
 		}
 		h, err := pmtiles.DeserializeHeader(d)
 		if err != nil {
+			// a rejected input yields NO header: callers that drop the error (Extract does) rely on the zero value
+			leak := ""
+			if h != (pmtiles.HeaderV3{}) {
+				leak = " with-decoded-header"
+			}
 			if strings.Contains(err.Error(), "magic") {
-				return "err badmagic"
+				return "err badmagic" + leak
 			}
 			if strings.Contains(err.Error(), "version") {
-				return "err badversion"
+				return "err badversion" + leak
 			}
-			return "err other"
+			return "err other" + leak
 		}
 		return "ok " + hdrFields(h)
 	}
@@ -265,7 +333,20 @@ func (C02) Oracle(line, goOut string) string {
 		}
 		return ""
 	}
+	if t[0] == "hdes" && strings.HasSuffix(goOut, "with-decoded-header") {
+		return "DeserializeHeader rejected the input but returned a decoded header with the error (callers that drop the error take it for a header): " + goOut
+	}
 	switch t[0] {
+	case "clishow":
+		if h, ok := parseHdrFields(t[1:]); ok {
+			for _, w := range []string{fmt.Sprintf("addressed_tiles_count=%d", h.AddressedTilesCount), fmt.Sprintf("tile_entries_count=%d", h.TileEntriesCount),
+				fmt.Sprintf("tile_contents_count=%d", h.TileContentsCount), fmt.Sprintf("min_zoom=%d", h.MinZoom), fmt.Sprintf("max_zoom=%d", h.MaxZoom), fmt.Sprintf("center_zoom=%d", h.CenterZoom)} {
+				if !strings.Contains(" "+goOut+" ", " "+w+" ") {
+					return "`pmtiles show` does not list " + w + " for an archive whose header says so: " + goOut
+				}
+			}
+		}
+		return ""
 	case "hser":
 		if strings.HasPrefix(goOut, "panic") {
 			return "SerializeHeader panicked: " + goOut
